@@ -41,7 +41,7 @@ UNIVERSE = [(p, y, h) for h in U_HOLDERS for y in U_YEARS for p in U_PREFIXES]
 
 def bounds(tier, seed):
     return {"holders": len(HOLDERS), "year_forms": YEARS, "prefixes": sorted(ref.PREFIXES),
-            "merge_universe": len(UNIVERSE), "merge_subset_size": 3 if tier == "quick" else 4,
+            "merge_universe": len(UNIVERSE), "merge_subset_size": 3 if tier == "quick" else 5,
             "cli_merge_existing_subset_size": 2, "cli_new_holders": 1}
 
 
@@ -55,7 +55,7 @@ def cases(tier, seed):
             for h in HOLDERS[:4]:
                 for p2 in ("spdx", "string-symbol"):
                     yield {"k": "verbatim", "h": h, "y": y, "p": p, "p2": p2}
-    n = 3 if tier == "quick" else 4
+    n = 3 if tier == "quick" else 5
     for size in range(0, n + 1):
         for sub in itertools.combinations(range(len(UNIVERSE)), size):
             yield {"k": "merge", "s": list(sub)}
